@@ -118,6 +118,9 @@ def run(rep):
     core.import_rules(rep, "c08", {"MEMBER-ONCE"})
     core.import_rules(rep, "c02", {"T-CONJ"})
     core.import_rules(rep, "c06", {"TRI-MATRIX", "TRI-OR", "TRI-AND"})
+    if rep.tier == "thorough":
+        import poscontrol
+        poscontrol.droppers(rep)
     rep.floor("SYM-ACCEPT", 12)
     rep.floor("SORT-SCOPE", 9)
     rep.floor("NO-DROP", 3)
